@@ -201,7 +201,11 @@ def check_one_past(ctx, F):
                 ctx.violation("C11.one-past", site, "%s (%s)" % (site, F.floc(fid)), bad, {})
 
 
-def check_views(ctx, F):
+# accepted spellings of ceil(_width / 8)
+UNITS_OF_WIDTH = ("contain(_width,8)", "(_width+7)/8", "_width+7)/8", "(_width+8-1)/8", "_width/8+(_width%8!=0)", "(_width+7)>>3")
+
+
+def check_views(ctx, F, rule="C11.views"):
     for fid, b in insts(F, "Bits", {"clear"}):
         if b.get("params") or b.get("ftargs"):
             continue
@@ -211,26 +215,29 @@ def check_views(ctx, F):
             if x.get("k") == "decl":
                 for v in x["vars"]:
                     defs[v["n"]] = _expr_txt(v.get("init") or {})
-        loops = [x for x in walk(b["body"]) if x.get("k") == "for"]
+        loops = [x for x in walk(b["body"]) if x.get("k") in ("for", "while")]
         bound = None
         if loops:
             c = strip(loops[0].get("c") or {})
-            if c.get("k") == "bin" and c.get("op") == "<":
+            if c.get("k") == "bin" and c.get("op") in ("<", "<=", "!="):
                 bn = _expr_txt(c["rhs"])
-                bound = defs.get(bn, bn)
-        ok = bound is not None and re.sub(r"this\.|\s", "", bound) in ("contain(_width,8)", "(_width+7)/8", "(_width+8-1)/8", "_width/8+(_width%8!=0)")
-        ctx.instance("C11.views", site, {"function": site, "loc": F.floc(fid), "units_cleared": bound})
+                bound = re.sub(r"this\.|\s", "", defs.get(bn, bn))
+                if c.get("op") == "<=":
+                    # i <= n visits n + 1 units
+                    bound = bound[:-2] if bound.endswith("-1") else "(%s)+1" % bound
+        ok = bound is not None and re.sub(r"^\((.*)\)$", r"\1", bound) in UNITS_OF_WIDTH
+        ctx.instance(rule, site, {"function": site, "loc": F.floc(fid), "units_cleared": bound})
         if not ok:
-            ctx.violation("C11.views", site, "%s (%s)" % (site, F.floc(fid)),
+            ctx.violation(rule, site, "%s (%s)" % (site, F.floc(fid)),
                           "Bits::clear() clears `%s` units, expected contain(_width, 8): one unit too many for widths that are multiples of 8 (writes past the view)" % bound, {})
     for fid, b in insts(F, "BitArrayT", {"bits", "cbits"}):
         site = "BitArrayT::" + b["name"]
         rets = [_expr_txt(x["e"]) for x in walk(b["body"]) if x.get("k") == "ret" and x.get("e") is not None]
-        ctx.instance("C11.views", site, {"function": site, "loc": F.floc(fid), "returns": rets})
+        ctx.instance(rule, site, {"function": site, "loc": F.floc(fid), "returns": rets})
         okr = [r for r in rets if re.sub(r"this\.", "", r) in ("T{_storage+units.unit,units.width}", "T{&_storage[units.unit],units.width}",
                                                                  "T{_storage+UNIT,WIDTH}", "T{&_storage[UNIT],WIDTH}")]
         if len(okr) != len(rets) or not rets:
-            ctx.violation("C11.views", site, "%s (%s)" % (site, F.floc(fid)), "%s returns %s, expected {_storage + units.unit, units.width}" % (site, rets), {})
+            ctx.violation(rule, site, "%s (%s)" % (site, F.floc(fid)), "%s returns %s, expected {_storage + units.unit, units.width}" % (site, rets), {})
 
 
 WIDTH = {"int": 32, "unsigned int": 32, "long": 64, "unsigned long": 64, "long long": 64, "unsigned long long": 64}
